@@ -129,7 +129,7 @@ def check(model, rep):
         # acceleration guarded exactly by "not locked": on not-locked paths the guards of the seed contain the negated flag
         if seeds and not locked:
             g = tuple(seeds[0].guards) + tuple(rp.guards)
-            okg = any(x.kind == 'truth' and not x.pol and x.key[0] in flags for x in g) or not flags
+            okg = any(x.kind == 'truth' and not x.pol and str(x.key[0]).split('#')[0] in flags for x in g) or not flags
             _once(rep, seen, ('eom-guard', okg), okg, 'C03.eom', 'acceleration guard',
                   'the acceleration update is not conditioned on the powertrain not being locked', loc=f'{mod}:{seeds[0].lineno}')
         # integration
